@@ -43,9 +43,9 @@ def run(ctx):
     # configuration (a violated theorem stops the check as a machinery failure).  TLC's -coverage instrumentation
     # makes the large constant tables of this module take minutes, so ctx.mc is not used; non-vacuity is established
     # from the enumerated states below (every (type, multiple, source) combination must have produced cases).
-    ctx.gen_states("text", MODULE, "Thm_Options.cfg")
+    ctx.gen_states("text", MODULE, "Thm_Options.cfg", timeout=ctx.pick(900, 1500))
     mp = ctx.pick(2, 3)
-    states = ctx.gen_states("text", MODULE, "Gen_Options.cfg", overrides={"MaxParts": mp})
+    states = ctx.gen_states("text", MODULE, "Gen_Options.cfg", timeout=ctx.pick(900, 1500), overrides={"MaxParts": mp})
     paths, rel_items = td.paths_from_states(states)
     combos = {(e["cfg"]["type"], e["cfg"]["mult"], e["cfg"]["src"]) for e, _ in paths}
     need = {(t, m, s) for t in ("str", "int", "float", "bool", "datetime", "timedelta") for m in (False, True)
